@@ -63,5 +63,23 @@ def extra_checks(ctx):
         out["coverage"]["guard_%s_faults" % mode] = bad
     ctx["env"].pop("BN_GUARD", None)
     os.environ.pop("BN_GUARD", None)
+    # translation validation of the compiled asm loops in the binaries built here (debug + release)
+    import json, sys
+    bins = []
+    for kw in (dict(release=False), dict(release=True)):
+        okb, b, _ = ctx["build_harness"](hooks=True, **kw)
+        if okb:
+            bins.append(b)
+    rc, tv = ctx["run"]([sys.executable, os.path.join(ctx["root"], "tools", "asm_tv.py")] + bins)
+    try:
+        tvj = json.loads(tv)
+    except Exception:
+        tvj = {"ok": False, "error": tv[-300:]}
+    out["coverage"]["compiled_asm"] = {os.path.basename(os.path.dirname(k)): {"instances": v["instances"], "adc": v["adc"], "sbb": v["sbb"],
+                                        "deviating": v["deviating"], "sample_registers": (v["sample"] or {}).get("regs")}
+                                       for k, v in tvj.get("binaries", {}).items()}
+    if not tvj.get("ok"):
+        out["violations"].append({"kind": "compiled-asm", "note": "a compiled instance of the asm loop deviates from the proved program (or none was found): %s" % json.dumps(tvj)[:600]})
+    ctx["log"]("[C15] compiled asm loops: %s" % {k: (v["instances"], len(v["deviating"])) for k, v in tvj.get("binaries", {}).items()})
     ctx["log"]("[C15] guard allocator: %d executions, violations %d" % (total, len(out["violations"])))
     return out
